@@ -108,6 +108,11 @@ def directed_bases(ctx, rnd):
             (1, b"-lh0-", ord('U'), 0, [(2, b"d\xff")], b"n"),
             (1, b"-lh0-", ord('A'), 0, [(2, b"d\xff")], b"n"),
             (0, b"-lh0-", 0, 0, None, b"d\\n"),
+            # the Amiga directory itself: -lh0-, no name, a path, both lengths zero; any substitution that makes one of the
+            # lengths non-zero turns it into a file entry without a name
+            (2, b"-lh0-", ord('A'), 0, [(2, b"Dir\xff")], None),
+            (1, b"-lh0-", ord('A'), 0, [(2, b"Dir\xff")], b""),
+            (3, b"-lh0-", ord('A'), 0, [(2, b"Dir\xff"), (0, b"\0\0")], None),
             (2, b"-lhd-", ord('U'), 0, [(0x50, struct.pack("<H", 0o120777)), (1, b"l|t")], None),
             (3, b"-lh0-", ord('M'), 0, [(1, b"n"), (2, b"d\xff"), (0, b"\0\0")], None)]:
         f = {"level": lv, "method": m, "clen": 0, "length": ln, "crc": rnd.getrandbits(16), "attr": 0x20, "os": o,
